@@ -369,6 +369,7 @@ impl<'a> Eval<'a> {
                 x => return unsupported(format!("time_to_slot({:?})", tag(&x))),
             },
             GExpr::MinUtxo(_) => return unsupported("min_utxo is judged by C05/C20, not by the denotation"),
+            GExpr::Raw(_) | GExpr::Call(..) | GExpr::RawRecord { .. } => return unsupported("mutated node"),
         })
     }
 }
